@@ -1224,6 +1224,63 @@ def xff_classify(line, out):
 
 
 # ----------------------------------------------------------------------------------------------
+# known design limits of lighttpd that ARE violations of C03 as stated (listed in
+# known_findings.json): one fixed scenario each, reported under the signatures known:L1- / L2- / L3-
+# ----------------------------------------------------------------------------------------------
+def known_scenarios(root):
+    """[(signature, what, config, canonical request, bypass request, file)]"""
+    peer = b"203.0.113.9"
+    return [
+        ("known:L1-pcre-utf-pathinfo",
+         'auth.require inside `$HTTP["url"] =~ "(?i)^/secret/"` (PCRE2_UTF): GET /secret/key.html -> 401, but '
+         "GET /secret/key.html/%80 (path-info that is not UTF-8: the regex does not match) -> 200 with the file",
+         Config([Block(Scope("G")), Block(Scope("R", rkind="cp", val=b"/secret/"), auth=[b"/secret/"])], [], False),
+         Request(1, peer, b"/secret/key.html"), Request(1, peer, b"/secret/key.html/%80"), b"/secret/key.html"),
+        ("known:L2-urlcond-case-forcelowercase",
+         '`$HTTP["url"] =^ "/secret/" { url.access-deny = ("") }` with server.force-lowercase-filenames: '
+         "GET /secret/key.html -> 403, but GET /SECRET/key.html -> 200 with the same file",
+         Config([Block(Scope("G")), Block(Scope("U", op="p", val=b"/secret/"), deny=[b""])], [], True),
+         Request(1, peer, b"/secret/key.html"), Request(1, peer, b"/SECRET/key.html"), b"/secret/key.html"),
+        ("known:L3-auth-before-pathinfo-split",
+         'auth.require inside `$HTTP["url"] =$ ".php"`: GET /app.php -> 401, but GET /app.php/x (mod_auth runs '
+         "before the path-info split only) -> 200 with the file",
+         Config([Block(Scope("G")), Block(Scope("U", op="s", val=b".php"), auth=[b"/"])], [], False),
+         Request(1, peer, b"/app.php"), Request(1, peer, b"/app.php/x"), b"/app.php"),
+    ]
+
+
+def known_line(root, sc):
+    sig, what, cfg, ra, rb, f = sc
+    return cfg.head(root) + " " + ra.tok() + " " + rb.tok()
+
+
+def known_witnessed(sc, out):
+    """does the implementation output show the bypass of this scenario?"""
+    sig, what, cfg, ra, rb, f = sc
+    o = out.split(" ")
+    if len(o) != 4:
+        return False
+    a, b = o[2].split(","), o[3].split(",")
+    return a[0] in ("401", "403") and b[0] == "200" and b[4] == hx(f)
+
+
+def run_known(ctx, exe, root):
+    scs = known_scenarios(root)
+    lines = [known_line(root, sc) for sc in scs]
+    ctx.differential("srv(known findings L1-L3, fixed scenarios)", [exe], "access", lines, None,
+                     lambda l, o: "known:" + ",".join(x.split(",")[0] for x in o.split(" ")[2:]))
+    impl, rc, err = C.run_lines([exe], lines)
+    for sc, line, out in zip(scs, lines, impl + [""] * (len(lines) - len(impl))):
+        if known_witnessed(sc, out):
+            ctx.violation(sc[0], sc[1], {"property": ctx.pid, "kind": "property-oracle", "known": sc[0],
+                                         "correspondence": "srv(known findings L1-L3, fixed scenarios)",
+                                         "input": line, "impl_obs": out, "oracle_verdict": sc[1],
+                                         "conf": sc[2].text().decode()}, found=True)
+        else:
+            ctx.notes.append("%s: not witnessed on this tree (%s)" % (sc[0], out[:120]))
+
+
+# ----------------------------------------------------------------------------------------------
 # end to end (thorough tier): the same generated configurations and requests against the REAL server
 # (sockets, h1.c / h2.c, connections.c, dlopen()ed modules); status and file sent vs the model
 # ----------------------------------------------------------------------------------------------
@@ -1384,6 +1441,7 @@ def run(ctx):
     ctx.differential("srv(random configurations)", [exe], "access", lines, srv_oracle, srv_classify)
     # the two constructions lighttpd does not make robust: differential only (no oracle); the Lean
     # counterexamples c03_url_cond_case_sensitive / c03_auth_suffix_cond_pathinfo state them
+    run_known(ctx, exe, root)
     lines = srv_lines(ctx, root, 800 if q else 8000, 16, limits=True)
     ctx.differential("srv(known design limits, differential only)", [exe], "access", lines, None, srv_classify)
     if not q:
@@ -1425,6 +1483,15 @@ def replay_line(ctx, rep):
     print("model:", m)
     if rc != 0:
         print(e[-3000:])
+    if rep.get("known"):
+        for sc in known_scenarios(root):
+            if sc[0] == rep["known"] and o and known_witnessed(sc, o[0]):
+                print("witnessed:", sc[1])
+                if not ctx.violation(sc[0], sc[1], rep):
+                    print("KNOWN-FINDING: property=%s %s" % (ctx.pid, ctx.known_hits[-1]["what"]))
+                    return 0
+                print("VIOLATION property=%s replay=%s" % (ctx.pid, "(replayed)"))
+                return 1
     if o != m or rc != 0:
         print("VIOLATION property=%s replay=%s" % (ctx.pid, "(replayed)"))
         return 1
